@@ -219,7 +219,7 @@ func genReadPath(repo, out string) {
 		"GetData", "GetReader", "GetIntegrityReader", "GetHeaderIntegrityReader", "ReadAt",
 		"LaunchScript", "Version", "PrimaryArch", "ID", "CreatedAt", "ModifiedAt", "DescriptorsFree", "DescriptorsTotal",
 		"DescriptorsOffset", "DescriptorsSize", "DataOffset", "DataSize", "DataType", "GroupID", "LinkedID", "Offset", "Size",
-		"SizeWithPadding", "Name", "PartitionMetadata", "SignatureMetadata", "CryptoMessageMetadata", "SBOMMetadata",
+		"Name", "PartitionMetadata", "SignatureMetadata", "CryptoMessageMetadata", "SBOMMetadata",
 		"OCIBlobDigest", "GetMetadata", "isDeterministic"}
 	integRoots := []string{"NewVerifier", "Verify", "AnySignedBy", "AllSignedBy", "fingerprints"}
 	w1, c1 := analyse(loadPkg(filepath.Join(repo, "pkg", "sif")), sifRoots)
